@@ -411,10 +411,11 @@ func (c *DefaultCtx) SetContext(ctx context.Context) {
 // Cookie sets a cookie by passing a cookie struct.
 func (c *DefaultCtx) Cookie(cookie *Cookie) {
 	fcookie := fasthttp.AcquireCookie()
-	fcookie.SetKey(cookie.Name)
-	fcookie.SetValue(cookie.Value)
-	fcookie.SetPath(cookie.Path)
-	fcookie.SetDomain(cookie.Domain)
+	// cookie fields are written to the header block as they are: keep them on one line
+	fcookie.SetKey(removeHeaderNewLines(cookie.Name))
+	fcookie.SetValue(removeHeaderNewLines(cookie.Value))
+	fcookie.SetPath(removeHeaderNewLines(cookie.Path))
+	fcookie.SetDomain(removeHeaderNewLines(cookie.Domain))
 	// only set max age and expiry when SessionOnly is false
 	// i.e. cookie supposed to last beyond browser session
 	// refer: https://developer.mozilla.org/en-US/docs/Web/HTTP/Cookies#define_the_lifetime_of_a_cookie
@@ -1718,7 +1719,8 @@ func (c *DefaultCtx) Set(key, val string) {
 }
 
 func (c *DefaultCtx) setCanonical(key, val string) {
-	c.fasthttp.Response.Header.SetCanonical(utils.UnsafeBytes(key), utils.UnsafeBytes(val))
+	// unlike Header.Set, SetCanonical does not strip line breaks from the value
+	c.fasthttp.Response.Header.SetCanonical(utils.UnsafeBytes(key), utils.UnsafeBytes(removeHeaderNewLines(val)))
 }
 
 // Subdomains returns a string slice of subdomains in the domain name of the request.
@@ -1792,7 +1794,7 @@ func (c *DefaultCtx) String() string {
 // Type sets the Content-Type HTTP header to the MIME type specified by the file extension.
 func (c *DefaultCtx) Type(extension string, charset ...string) Ctx {
 	if len(charset) > 0 {
-		c.fasthttp.Response.Header.SetContentType(utils.GetMIME(extension) + "; charset=" + charset[0])
+		c.fasthttp.Response.Header.SetContentType(utils.GetMIME(extension) + "; charset=" + removeHeaderNewLines(charset[0]))
 	} else {
 		c.fasthttp.Response.Header.SetContentType(utils.GetMIME(extension))
 	}
